@@ -20,6 +20,7 @@ type SpecEnv struct {
 	st       *State
 	old      *State
 	names    map[string]*Value
+	oldNames map[string]*Value // bindings to use inside old(...) when they differ (slice arguments modified in place)
 	goLookup func(name string, old bool) (*Value, bool)
 	cf       *ContractFile
 	pkg      *packages.Package
@@ -90,6 +91,11 @@ func (env *SpecEnv) eval(x SExpr) *Value {
 			return boolV(n.Name)
 		case "nil":
 			return nilValue
+		}
+		if env.inOld && env.oldNames != nil {
+			if v, ok := env.oldNames[n.Name]; ok {
+				return v
+			}
 		}
 		if v, ok := env.names[n.Name]; ok {
 			return v
@@ -366,6 +372,10 @@ func (env *SpecEnv) evalCall(c *SCall) *Value {
 			return intV(sliceLen(v))
 		case KStr:
 			return intV(app(e.declFun("slen", []string{"Str"}, "Int"), v.T()))
+		case KMapRef:
+			card := e.declFun("map.len", []string{"(Array " + e.leafSorts(v.Sh.Key)[0] + " Bool)"}, "Int")
+			dk, dsh := e.mapDomKey(v.Sh)
+			return intV(ite(eq(v.T(), "0"), "0", app(card, e.heapRead(env.state(), dk, dsh, v.T()).T())))
 		}
 		specFail("len of %s", v.Sh)
 	case "deref":
@@ -443,6 +453,14 @@ func (env *SpecEnv) evalCall(c *SCall) *Value {
 			specFail("asRef(ifaceValue, \"type\")")
 		}
 		return scalar(e.shapeOf(env.resolveGoType(ts.V)), v.L[1])
+	case "asPtr":
+		// asPtr(ref, "*T"): the same reference viewed as a pointer to an embedded struct type T
+		v := env.eval(c.Args[0])
+		ts, ok := c.Args[1].(*SStr)
+		if !ok || v == nilValue || v.Sh.Kind != KRef {
+			specFail("asPtr(ref, \"*T\")")
+		}
+		return scalar(e.shapeOf(env.resolveGoType(ts.V)), v.T())
 	case "ifaceStr":
 		// the string held by an interface value (a queue key)
 		v := env.eval(c.Args[0])
@@ -649,6 +667,10 @@ func (env *SpecEnv) resolveGoType(s string) types.Type {
 		return types.Typ[types.Int32]
 	case "int64":
 		return types.Typ[types.Int64]
+	case "byte", "uint8":
+		return types.Typ[types.Uint8]
+	case "uint32":
+		return types.Typ[types.Uint32]
 	case "bool":
 		return types.Typ[types.Bool]
 	case "string":
